@@ -21,7 +21,7 @@ func init() {
 			`R17.4 the series kind that skipFile dispatches on is (re)assigned on every path from reading the header to the skip/process decision. ` +
 			`R17.6 (shared with C03) every cyclic path through the increment of the checkpoint file index stores nil into each pointer field of the checkpoint that the loop body or its callees read (SyncHeader, RsyncCheckpoint, BsdiffCheckpoint), directly or through a callee / deferred call that does so on all its paths. ` +
 			`R17.7 every success return of skipFile is reached through the outcome op.Type == HEY_YOU_DID_IT of a SyncOp read from the stream. ` +
-			`R07.4 (shared) pool read-seekers are positioned before they are read linearly. NOT decided: equality of the selected files with full application; that GetTouchedFiles equals the subset size.`,
+			`R07.4 (shared) pool read-seekers are positioned before they are read linearly. R17.8 the value found by a lookup of the whitelist, not only the presence of the key, flows into a branch condition. NOT decided: equality of the selected files with full application; that GetTouchedFiles equals the subset size.`,
 		Assumptions: []string{"effects are the Bowl methods GetWriter/Transpose and the lake.Pool methods GetSize/GetReader/GetReadSeeker; module-internal call graph (CHA) for reachability"},
 		Run:         runC17,
 	})
@@ -35,6 +35,7 @@ func runC17(c *core.Ctx) {
 	c.Rule("R17.5", "the whitelist kept is the caller's, values included")
 	rulePerFileStateCleared(c, "R17.6")
 	ruleSkipEndsAtTheMarker(c, "R17.7")
+	ruleWhitelistValueDecides(c, "R17.8")
 	ruleRewindBeforeLinearRead(c, "R07.4")
 	{
 		nSt := 0
@@ -677,4 +678,79 @@ func ruleSkipEndsAtTheMarker(c *core.Ctx, rule string) {
 			"skipFile can succeed without having read the series' closing SyncOp: the marker is still in the stream and the next header read decodes it as a SyncHeader for file 0 ('expected file N, got file 0')")
 	}
 	c.Floor(rule, "success returns of skipFile", n, 1)
+}
+
+// ruleWhitelistValueDecides is R17.8: the whitelist is a map from file index to "wanted". R17.5 makes the patcher
+// keep the caller's values; this rule makes it read them: wherever package patcher looks the whitelist up, the
+// value found takes part in a branch condition - a lookup that is only asked whether the key is present treats
+// a file the caller mapped to false as selected.
+func ruleWhitelistValueDecides(c *core.Ctx, rule string) {
+	c.Rule(rule, "the whitelist's values, not its keys, decide")
+	n := 0
+	for _, fn := range c.P.SrcFuncs() {
+		if !strings.HasSuffix(core.PkgPathOf(fn), "/pwr/patcher") {
+			continue
+		}
+		core.Instrs(fn, func(in ssa.Instruction) {
+			lk, ok := in.(*ssa.Lookup)
+			if !ok {
+				return
+			}
+			if _, nme, ok := core.FieldOf(lk.X); !ok || nme != "sourceIndexWhiteList" {
+				return
+			}
+			n++
+			// does the value reach a branch
+			var val ssa.Value = lk
+			if lk.CommaOk {
+				val = nil
+				if refs := lk.Referrers(); refs != nil {
+					for _, r := range *refs {
+						if ex, ok := r.(*ssa.Extract); ok && ex.Index == 0 {
+							val = ex
+						}
+					}
+				}
+			}
+			decides := false
+			if val != nil {
+				seen := map[ssa.Value]bool{}
+				var walk func(v ssa.Value, d int)
+				walk = func(v ssa.Value, d int) {
+					if d > 6 || seen[v] || decides {
+						return
+					}
+					seen[v] = true
+					refs := v.Referrers()
+					if refs == nil {
+						return
+					}
+					for _, r := range *refs {
+						switch x := r.(type) {
+						case *ssa.If:
+							decides = true
+						case *ssa.Return:
+							decides = true // a helper answering "wanted?": judged where it is expanded or called
+						case *ssa.Store:
+							// a flag variable
+							if a, ok := core.CellRoot(x.Addr).(*ssa.Alloc); ok {
+								for _, u := range core.CellUses(a) {
+									if ld, ok := u.(*ssa.UnOp); ok && ld.Op == token.MUL {
+										walk(ld, d+1)
+									}
+								}
+							}
+						case ssa.Value:
+							walk(x, d+1)
+						}
+					}
+				}
+				walk(val, 0)
+			}
+			c.Check(decides, rule, core.FnName(fn), "the value found in the whitelist takes part in the decision", core.InstrPos(in),
+				"the looked-up value (not only the presence of the key) flows into a branch condition",
+				"the whitelist is only asked whether the file index is a key: a file the caller mapped to false (a map filled for every file with 'is it selected?') is patched, written through the bowl and counted as touched")
+		})
+	}
+	c.Floor(rule, "lookups of the whitelist", n, 1)
 }
